@@ -694,7 +694,15 @@ def _written_width(m, offset_name):
       for lp in U.enclosing_loops(m.node, st):
         trip = TRIPS.get(norm_text(lp.iter).replace(' ', '').replace('enumerate(', 'enumerate(')) or TRIPS.get(norm_text(lp.iter))
         if trip is None:
-          return None, 'loop over %s has no known trip count' % norm_text(lp.iter)
+          # the histogram under another local name: read the loop's iterable through its reaching definition
+          it_ = lp.iter.args[0] if isinstance(lp.iter, ast.Call) and norm_text(lp.iter.func) == 'enumerate' and lp.iter.args else lp.iter
+          d_ = U.reaching_def(m.node, it_.id, lp) if isinstance(it_, ast.Name) else None
+          if isinstance(d_, ast.Call) and isinstance(d_.func, ast.Attribute) and d_.func.attr == 'get_major_key_histogram':
+            trip = 'NOTES_PER_OCTAVE'
+        if trip is None and isinstance(lp.iter, (ast.Tuple, ast.List)):
+          trip = str(len(lp.iter.elts))
+        if trip is None:
+          return None, 'cannot classify: loop over %s has no known trip count' % norm_text(lp.iter)
         w = w * nf.rat(E(trip))
       if any(True for _ in U.enclosing_tests(m.node, st, stop_at=(U.enclosing_loops(m.node, st) or [None])[-1])):
         return None, 'the offset is advanced conditionally'
@@ -702,10 +710,80 @@ def _written_width(m, offset_name):
   return total, ''
 
 
+def _seq_len(fn, e, at, depth=0):
+  """('=', normal form) when the sequence expression has exactly that many elements, ('>=', text) when it has at least that many and
+  possibly more (a number formatted with a *minimum* width), None when unknown."""
+  if depth > 5:
+    return None
+  if isinstance(e, ast.Name):
+    d = U.reaching_def(fn, e.id, at)
+    return _seq_len(fn, d, at, depth + 1) if d is not None else None
+  if isinstance(e, ast.Subscript) and isinstance(e.slice, ast.Slice) and e.slice.lower is None and e.slice.upper is None:
+    return _seq_len(fn, e.value, at, depth + 1)        # x[::-1], x[:]
+  if isinstance(e, (ast.ListComp, ast.GeneratorExp)) and len(e.generators) == 1 and not e.generators[0].ifs:
+    return _seq_len(fn, e.generators[0].iter, at, depth + 1)
+  if isinstance(e, ast.Call):
+    d = dotted(e.func) or ''
+    if d in ('list', 'tuple', 'reversed', 'enumerate', 'sorted') and e.args:
+      return _seq_len(fn, e.args[0], at, depth + 1)
+    if d == 'range' and len(e.args) == 1:
+      try:
+        return ('=', nf.rat(e.args[0]))
+      except nf.NFError:
+        return None
+    if d == 'format' and len(e.args) == 2:
+      return ('>=', norm_text(e))
+    if isinstance(e.func, ast.Attribute) and e.func.attr in ('zfill', 'rjust', 'ljust', 'center'):
+      return ('>=', norm_text(e))
+    if isinstance(e.func, ast.Attribute) and e.func.attr == 'get_major_key_histogram':
+      return ('=', nf.rat(E('NOTES_PER_OCTAVE')))
+  if isinstance(e, ast.BinOp) and isinstance(e.op, ast.Mod) and isinstance(e.left, ast.Constant) and isinstance(e.left.value, str):
+    return ('>=', norm_text(e))
+  if isinstance(e, ast.BinOp) and isinstance(e.op, ast.Mult):
+    for a, b in ((e.left, e.right), (e.right, e.left)):
+      if isinstance(a, ast.List) and len(a.elts) == 1:
+        try:
+          return ('=', nf.rat(b))
+        except nf.NFError:
+          return None
+  if isinstance(e, (ast.List, ast.Tuple)):
+    return ('=', nf.rat(E(str(len(e.elts)))))
+  return None
+
+
+def slice_store_widths(ctx, ei, vec, rule):
+  """A block written with one slice store `vec[a:b] = values` must receive exactly b - a values: a Python list *grows* when a longer
+  list is assigned to a slice (and an array refuses it), so the vector no longer has input_size entries."""
+  fn = ei.node
+  for st in U.walk_stmts(fn):
+    if not (isinstance(st, ast.Assign) and len(st.targets) == 1 and isinstance(st.targets[0], ast.Subscript) and isinstance(st.targets[0].slice, ast.Slice) and
+            norm_text(st.targets[0].value) == vec):
+      continue
+    sl = st.targets[0].slice
+    cons = '%s: %s receives as many values as the slice is wide' % (ei.qualname, norm_text(st.targets[0])[:50])
+    try:
+      width = nf.rat(sl.upper) - nf.rat(sl.lower) if sl.lower is not None and sl.upper is not None and sl.step is None else None
+    except nf.NFError:
+      width = None
+    ln = _seq_len(fn, st.value, st)
+    if width is None or ln is None:
+      why = 'cannot classify: the number of values stored into %s' % norm_text(st.targets[0])[:60]
+      ctx.ob(rule, ei, st, False, why, construct=cons, unknown=why)
+    elif ln[0] == '>=':
+      ctx.ob(rule, ei, st, False, 'the values stored into %s come from %s, a text padded to a *minimum* width: a number with more digits gives more values than the slice is wide, and the '
+             'vector then has more than input_size entries (the original loop kept only the low bits)' % (norm_text(st.targets[0])[:50], ln[1][:60]), construct=cons, definite=True)
+    else:
+      ok = ln[1].equals(width)
+      ctx.ob(rule, ei, st, ok, 'the slice is as wide as the values stored into it' if ok else '%s values are stored into a slice %s wide' % (ln[1], width), construct=cons, definite=not ok)
+
+
 def sizes(ctx):
   for cq in ('encoder_decoder:LookbackEventSequenceEncoderDecoder', 'melody_encoder_decoder:KeyMelodyEncoderDecoder'):
     ci = ctx.cls(cq)
     ei, isz = ci.methods['events_to_input'], ci.methods['input_size']
+    vec_ = [norm_text(r_.value) for r_ in ast.walk(ei.node) if isinstance(r_, ast.Return) and isinstance(r_.value, ast.Name)]
+    if vec_:
+      slice_store_widths(ctx, ei, vec_[-1], 'SIZE/slice-store-width')
     offs = [s.targets[0].id for s in ei.node.body if isinstance(s, ast.Assign) and isinstance(s.targets[0], ast.Name) and U.const_value(s.value) == 0 and
             any(isinstance(x, ast.AugAssign) and norm_text(x.target) == s.targets[0].id for x in ast.walk(ei.node))]
     ctx.require(len(offs) == 1, '%s.events_to_input: offset variable not found' % ci.qualname)
@@ -718,7 +796,8 @@ def sizes(ctx):
     ok = total is not None and len(r) == 1 and nf.Builder(env).rat(r[0].value).equals(total)
     ctx.ob('SIZE/' + ci.qualname, isz, r[0] if r else isz.node, ok, 'input_size equals the sum of the block widths written by events_to_input (%r)' % (total,) if ok else
            '%s.input_size is %s but events_to_input advances its offset by %s in total%s: vectors have the wrong length or blocks overlap' % (
-               ci.qualname, norm_text(r[0].value) if r else None, total, (' (' + why + ')') if why else ''), construct='%s: input_size == written width' % ci.qualname)
+               ci.qualname, norm_text(r[0].value) if r else None, total, (' (' + why + ')') if why else ''), construct='%s: input_size == written width' % ci.qualname,
+           unknown=why if (total is None and why and why.startswith('cannot classify')) else None)
   mh = ctx.func('melodies_lib:Melody.get_major_key_histogram')
   ok = any(norm_text(s.value) == 'np.zeros(NOTES_PER_OCTAVE)' for s in U.walk_stmts(mh.node) if isinstance(s, ast.Assign))
   ctx.ob('SIZE/key-histogram', mh, mh.node, ok, 'the key histogram has NOTES_PER_OCTAVE entries' if ok else 'the key histogram is not allocated with NOTES_PER_OCTAVE entries', construct='key histogram width')
@@ -779,3 +858,4 @@ RENAME_FUNCS = [(ED, 'LookbackEventSequenceEncoderDecoder.events_to_label'), (ED
 EXPLANATION += (' Location-independent additions: PIANOROLL/wide-label (no numpy fixed-width operand where the label needs input_size bits), GEN/chord-label-split (C09 rule shared), GEN/full-history (history handed to class_index_to_event complete or bounded by max(distances)).')
 EXPLANATION += (' Round 6: ' + 'GEN/sampled-size: the size given to np.random.choice is the length of a distribution taken from the same element as p.')
 EXPLANATION += (' Round 7: ' + 'GEN/steps-by-decoding (every labels_to_num_steps decodes its labels or delegates); NOTEPERF/pitch-block-size.')
+EXPLANATION += (' Rounds 9-10: ' + 'PITFALL/unforwarded-parameter over the encoder classes (constructors and base constructors resolved through the hierarchy).')
